@@ -11,10 +11,11 @@ import os, sys, json, tempfile, shutil, glob, time, concurrent.futures as cf
 import vlib, e2e
 import shutdown_lib as L
 
-THEOREMS = ['C09_refuted_unfixed', 'C09_no_stuck', 'C09_terminates', 'C09_terminates_any', 'C09_exit_nonzero',
-            'C09_clean_exit_zero', 'C09_holds_below_capacity', 'C09_run_sound']
+THEOREMS = ['C09_no_stuck', 'C09_impl_repaired', 'C09_no_stuck_impl', 'C09_step_decreases', 'C09_terminates',
+            'C09_exit_nonzero', 'C09_clean_exit_zero', 'C09_refuted_unfixed', 'C09_run_sound']
 
 WATCHDOG = 30.0          # seconds; a run normally takes 0.01 s (local) to 0.4 s (both remote)
+WATCHDOG_SLOW = 90.0     # runs that really move tens of MiB through the debug-build AES link (2 - 15 s)
 WATCHDOG_BIG = 240.0     # sparse 400 MiB runs (debug build: 1 - 60 s)
 WORKERS = 6
 MAX_FAIL = 3             # stop generating work after this many property failures (each hang costs a watchdog)
@@ -91,9 +92,10 @@ def gen(run, binary, tmp):
     # (3) source file growing / shrinking while it is copied (a race: only termination is demanded)
     nrace = 24 if thorough else 8
     for i in range(nrace):
-        big = 30 * 1024 * 1024
+        pl = ('LL', 'RL', 'LR')[i % 3]
+        big = (30 if pl == 'LL' else 8) * 1024 * 1024
         kind = 'grow' if i % 2 == 0 else 'shrink'
-        yield {'placement': ('LL', 'RL', 'LR')[i % 3], 'files': [big, 4096], 'sparse': True, 'capacity': (None, 200000)[(i // 2) % 2],
+        yield {'placement': pl, 'files': [big, 4096], 'sparse': True, 'capacity': (None, 200000)[(i // 2) % 2], 'slow': True,
                'fault': {'kind': kind, 'file': 0, 'delay_ms': rng.choice([5, 15, 30, 60]),
                          'to': big * 2 if kind == 'grow' else rng.choice([0, 4096, big // 2])}}
     # (4) remote doers dying / links cut
@@ -155,7 +157,7 @@ def run_one(binary, tmp, sc):
     base = tempfile.mkdtemp(prefix='c_', dir=tmp)
     shutil.rmtree(base)
     os.makedirs(base)
-    wd = WATCHDOG_BIG if sc.get('big') else WATCHDOG
+    wd = WATCHDOG_BIG if sc.get('big') else (WATCHDOG_SLOW if sc.get('slow') else WATCHDOG)
     try:
         obs = L.run(binary, sc, base, wd)
     finally:
@@ -247,13 +249,8 @@ def check(run, only=None):
                          'non-trivial = a fault is planned; distinct by scenario')
     binary = vlib.build_impl()
     vlib.regen_facts(binary)
-    have_model = os.path.exists(os.path.join(vlib.COQ, 'theories', 'Props', 'C09.v'))
-    if have_model:
-        run.check_proofs('C09', THEOREMS, extra_targets=['theories/Extract/Ex_shutdown.vo'])
-        jbin = vlib.build_judge('shutdown')
-    else:
-        run.broke('proof', 'C09', 'Props/C09.v is missing')
-        jbin = None
+    run.check_proofs('C09', THEOREMS, extra_targets=['theories/Extract/Ex_shutdown.vo'])
+    jbin = vlib.build_judge('shutdown')
     fixed = impl_is_fixed(binary)
     run.extra['impl_has_repair'] = fixed
     tmp = tempfile.mkdtemp(prefix='c09_', dir=vlib.CACHE)
@@ -270,7 +267,7 @@ def check(run, only=None):
                 if canon(sc) not in seen:
                     seen.add(canon(sc))
                     scs.append(sc)
-        models = model_verdicts(jbin, scs, fixed) if jbin else [None] * len(scs)
+        models = model_verdicts(jbin, scs, fixed)
         big = [i for i, s in enumerate(scs) if s.get('big')]
         small = [i for i, s in enumerate(scs) if not s.get('big')]
         nfail = 0
